@@ -57,6 +57,12 @@ def cases(tier, seed):
     yield {"kind": "factor_power"}
     yield {"kind": "reduce", "itmd": "t2_1"}
     yield {"kind": "reduce", "itmd": "p0_2_oo"}
+    # a long intermediate (second order doubles) inside a product, one term of
+    # the expansion with a different prefactor (mixed prefactor factorisation)
+    for k in range(4):
+        yield {"kind": "factor_long_mixed", "term": k, "scale": [3, 2], "which": ["t2_2"]}
+    yield {"kind": "factor_long_mixed", "term": 1, "scale": [5, 2], "which": ["t2_1", "t2_2"]}
+    yield {"kind": "factor_long_mixed", "term": None, "scale": [1, 1], "which": ["t2_2"]}
     if tier == "thorough":
         yield {"kind": "factor_roundtrip", "itmd": "t1_2", "extra": False}
         yield {"kind": "reduce", "itmd": "t1_2"}
@@ -81,9 +87,36 @@ def factor_power_check():
     return True, ""
 
 
+def factor_long_mixed_check(case):
+    from adcgen.sympy_objects import AntiSymmetricTensor
+    from sympy import Add
+    i, j, a, b, c, d = get_symbols("ijabcd")
+    t22 = Intermediates().available["t2_2"].tensor(indices="ijcd")
+    V = AntiSymmetricTensor("V", (i, j), (a, b), 1)
+    e0 = Expr(V * t22.sympy, real=True, target_idx=[a, b, c, d])
+    full = e0.copy().expand_intermediates().expand()
+    terms = list(full.terms)
+    if case["term"] is not None:
+        if case["term"] >= len(terms):
+            return True, "fewer terms"
+        k = case["term"]
+        sym = Add(*[t.sympy * (Rational(*case["scale"]) if n == k else 1) for n, t in enumerate(terms)])
+        full = Expr(sym, real=True, target_idx=[a, b, c, d])
+    model = HFModel(13)
+    fact = factor_intermediates(full.copy(), types_or_names=case["which"])
+    back = fact.copy().expand_intermediates().expand()
+    ok, dd = same_value(full.sympy, back.sympy, [a, b, c, d], model)
+    if not ok:
+        return False, (f"factoring {case['which']} in V^ij_ab t2_2^cd_ij (term {case['term']} scaled by "
+                       f"{case['scale']}) and expanding again changes the value: {dd}; factored: {str(fact)[:400]}")
+    return True, ""
+
+
 def check(case):
     if case["kind"] == "factor_power":
         return factor_power_check()
+    if case["kind"] == "factor_long_mixed":
+        return factor_long_mixed_check(case)
     itmd = Intermediates().available[case["itmd"]]
     idx = itmd.default_idx
     targets = get_symbols(idx)
@@ -142,6 +175,6 @@ CHECKS = {
     "intermediates.consistency": {
         "function": "adcgen.intermediates:RegisteredIntermediate.expand_itmd", "cases": cases,
         "check": check,
-        "bound": "registered intermediates t2_1, t1_2, p0_2_oo/vv, t2eri_1/3, t2sq (thorough: + t2_2, t3_2, t2eri_2..7, A, B): step-wise vs full expansion, tensor expansion with other index names; factor(expand(.)) round trip and reduce_expr for t2_1 (with a free tensor) / p0_2_oo; real canonical HF model, sampled target assignments",
+        "bound": "registered intermediates t2_1, t1_2, p0_2_oo/vv, t2eri_1/3, t2sq (thorough: + t2_2, t3_2, t2eri_2..7, A, B): step-wise vs full expansion, tensor expansion with other index names; factor(expand(.)) round trip for t2_1 and for the long intermediate t2_2 inside a product with one rescaled term (mixed prefactors), reduce_expr for t2_1 (with a free tensor) / p0_2_oo; real canonical HF model, sampled target assignments",
     },
 }
